@@ -301,7 +301,8 @@ def _nodes(draw, depth, clean, xhtml, budget):
         elif k == 9:
             items.append({'lit': draw(st.integers(0, len(LITERALS_XHTML if xhtml else LITERALS_XML) - 1))})
         elif k == 10:
-            items.append({'sp': 1})
+            items.append({'sp': 1} if draw(st.booleans()) else
+                         {'cmt': draw(st.one_of(hostile_texts(clean), st.sampled_from(['--', 'a--b', 'ends with -', '-', '-->', 'x -- y -- z', '<!-- -->', ' plain '])))})
         elif budget[1] > 0 and draw(st.integers(0, 2)) == 0:
             budget[1] = 0
             items.append({'raise': 1})
@@ -364,6 +365,8 @@ def _write_items(XmlWrite, xs, items, literals):
             xs.literal(literals[it['lit'] % len(literals)][0])
         elif 'sp' in it:
             xs.xmlSpacePreserve()
+        elif 'cmt' in it:
+            xs.comment(it['cmt'])
         elif 'raise' in it:
             raise _Boom()
         elif 'raise_c' in it:
@@ -541,6 +544,10 @@ def _case_strings(items, out, depth=1, stats=None):
             stats['raise'] = True
         elif 'raise_c' in it:
             stats['caught'] = True
+        elif 'cmt' in it:
+            stats['comment'] = True
+            if '--' in it['cmt'] or it['cmt'].endswith('-'):
+                stats['comment_hyphens'] = True
         elif 'sp' in it:
             stats['sp'] = True
 
@@ -564,6 +571,8 @@ def check_tree(case, cc):
     cc.cls('writer:literal', stats['lit'])
     cc.cls('writer:raise-midway', stats['raise'])
     cc.cls('writer:exception-caught-around-an-element', bool(stats.get('caught')))
+    cc.cls('writer:comment', bool(stats.get('comment')))
+    cc.cls('writer:comment-with-double-hyphen', bool(stats.get('comment_hyphens')))
     cc.cls('writer:xmlSpacePreserve', stats['sp'])
     cc.cls('writer:attr-tab-lf-cr', any(k == 'a' and any(c in s for c in '\t\n\r') for k, s in strings))
     cc.cls('writer:attr-markup', any(k == 'a' and any(c in s for c in MARKUP) for k, s in strings))
